@@ -1,19 +1,40 @@
 #!/bin/bash
-# tools/mutant.sh <Cxx> <file-in-repo> <sed-expression> : apply a sed mutation to /repo, run the quick check, restore.
-# or: tools/mutant.sh <Cxx> --patch <patch.diff>
-prop=$1; shift
-cd /repo || exit 2
-if [ -n "$(git status --porcelain --untracked-files=no)" ]; then echo "repo not clean"; exit 2; fi
-if [ "$1" = "--patch" ]; then
-  git apply "$2" || { echo "patch does not apply"; exit 2; }
-else
-  file=$1; expr=$2
-  sed -i -E "$expr" "$file"
+# Sensitivity runs in isolation: a scratch worktree of /repo (HEAD) + a copy of the harness pointing at it.
+#   tools/mutant.sh <Cxx> <file-relative-to-repo> <sed -E expression>
+#   tools/mutant.sh <Cxx> --patch <patch.diff>
+#   tools/mutant.sh <Cxx> --py <script.py> [args]     (script edits files under $MREPO, given as env MREPO)
+#   tools/mutant.sh <Cxx> --none                      (unmutated control run in the scratch copy)
+#   tools/mutant.sh --clean                           (remove the scratch copies)
+# /repo and /verif/{evidence,replays} are never touched. Several runs may NOT execute concurrently with the same SLOT;
+# set MUTANT_SLOT=<name> to get a private scratch copy (each slot costs a few GB of build output).
+SLOT=${MUTANT_SLOT:-main}
+BASE=/var/tmp/mv-$SLOT
+export MREPO=$BASE/repo
+MHARN=$BASE/harness
+MROOT=$BASE/root
+if [ "$1" = "--clean" ]; then
+  git -C /repo worktree remove --force "$MREPO" 2>/dev/null; rm -rf "$BASE"; git -C /repo worktree prune; exit 0
 fi
-if [ -z "$(git status --porcelain --untracked-files=no)" ]; then echo "MUTATION DID NOT CHANGE ANYTHING"; exit 2; fi
-git diff --stat | tail -1
-cd /verif && ./check "$prop" --tier quick 2>&1 | grep -v conda | grep -E "VIOLATION|KNOWN|INCONCLUSIVE|exit=|key=" | cut -c1-300
-rc=${PIPESTATUS[0]}
-git -C /repo checkout -- .
-git -C /verif clean -fdq replays/ 2>/dev/null; git -C /verif checkout -q -- evidence 2>/dev/null
-echo "mutant result: exit=$rc"
+prop=$1; shift
+mkdir -p "$BASE" "$MROOT"
+if [ ! -d "$MREPO/.git" ] && [ ! -f "$MREPO/.git" ]; then
+  git -C /repo worktree add --detach "$MREPO" HEAD >/dev/null 2>&1 || { echo "cannot create worktree"; exit 2; }
+fi
+git -C "$MREPO" checkout -q --detach "$(git -C /repo rev-parse HEAD)" 2>/dev/null
+git -C "$MREPO" checkout -q -- . ; git -C "$MREPO" clean -fdq
+case "$1" in
+  --patch) git -C "$MREPO" apply "$2" || { echo "patch does not apply"; exit 2; } ;;
+  --py) shift; python3 "$@" || { echo "mutation script failed"; exit 2; } ;;
+  --none) ;;
+  *) sed -i -E "$2" "$MREPO/$1" ;;
+esac
+if [ "$1" != "--none" ] && [ -z "$(git -C "$MREPO" status --porcelain --untracked-files=no)" ]; then echo "MUTATION DID NOT CHANGE ANYTHING"; exit 2; fi
+git -C "$MREPO" diff --stat | tail -1
+rsync -a --delete --exclude 'target*' --exclude 'fuzz/target' --exclude 'fuzz/corpus' /verif/harness/ "$MHARN/"
+grep -rlE '/repo/' "$MHARN" --include=Cargo.toml --include='*.rs' --include=config.toml 2>/dev/null | xargs -r sed -i "s#/repo/#$MREPO/#g"
+sed -i "s#/verif/harness/target#$MHARN/target#g" "$MHARN/.cargo/config.toml"
+rm -rf "$MROOT"; mkdir -p "$MROOT"; cp /verif/known_findings.json "$MROOT/"; cp /verif/check "$MROOT/check"
+[ -d /verif/corpus ] && ln -s /verif/corpus "$MROOT/corpus"
+( cd "$MROOT" && VERIF_ROOT_DIR="$MROOT" VERIF_HARNESS_DIR="$MHARN" python3 ./check "$prop" --tier quick 2>&1 | grep -v conda | grep -E "VIOLATION|KNOWN|INCONCLUSIVE|exit=|key=|error" | cut -c1-400 )
+git -C "$MREPO" checkout -q -- . ; git -C "$MREPO" clean -fdq
+echo "mutant run finished (replays, if any, under $MROOT/replays)"
